@@ -199,6 +199,7 @@ func Load(o LoadOpts) (*Prog, error) {
 	for _, pk := range p.Scope {
 		p.indexFuncs(pk)
 	}
+	resolveRenames(p)
 	return p, nil
 }
 
